@@ -50,6 +50,10 @@ pub struct Norm<'a> {
     pub iter_idents: BTreeSet<String>,
     pub bind_no: BTreeMap<String, usize>,
     pub bind_done: BTreeSet<usize>,
+    /// parameters of type `&mut [T]` (R-SLICEPAT binds `&mut s[k]` for them)
+    pub mut_slices: Vec<String>,
+    /// `@opt retbind-typed`: R-RETBIND annotates `let r: T = tail;` with the declared return type (coercions at the return site still apply)
+    pub ret_ty: Option<Type>,
 }
 
 const ITER_HEADS_M: &[&str] = &["vx_iter", "vx_into_iter", "vx_iter_mut", "vx_chars", "vx_char_indices", "vx_bytes", "vx_keys", "vx_values"];
@@ -62,7 +66,7 @@ impl<'a> Norm<'a> {
             loop_no: 0, closure_no: 0, if_no: 0, match_no: 0, assert_no: 0, return_no: 0, forpat_no: 0, tmp_no: 0, split_no: 0, splitk_no: Default::default(), spine_no: 0,
             call_no: Default::default(), let_no: Default::default(), hoisted: vec![], log: Default::default(),
             raws: vec![], used_anchors: Default::default(), avail_anchors: Default::default(), errors: vec![],
-            closure_depth: 0, canaries: vec![], omap: crate::align::OrdMap::identity(), sigs: Default::default(), woven: Default::default(), pending_loop_sig: None, str_idents: Default::default(), iter_idents: Default::default(), bind_no: Default::default(), bind_done: Default::default(),
+            closure_depth: 0, canaries: vec![], omap: crate::align::OrdMap::identity(), sigs: Default::default(), woven: Default::default(), pending_loop_sig: None, str_idents: Default::default(), iter_idents: Default::default(), bind_no: Default::default(), bind_done: Default::default(), mut_slices: vec![], ret_ty: None,
         }
     }
     pub fn bump(&mut self, r: &str) {
@@ -608,6 +612,8 @@ impl<'a> VisitMut for Norm<'a> {
                     Stmt::Local(l) => { if let Some(init) = &mut l.init { self.split_spine(&mut init.expr, &mut pre); } }
                     // statement-level `if let P = E { .. }`: E is evaluated first
                     Stmt::Expr(Expr::If(i), _) => { if let Expr::Let(l) = &mut *i.cond { self.split_spine(&mut l.expr, &mut pre); } }
+                    // expression statement `x.m(..);` / `f(..);`
+                    Stmt::Expr(e @ (Expr::MethodCall(_) | Expr::Call(_)), Some(_)) => self.split_spine(e, &mut pre),
                     _ => {}
                 }
                 out.extend(pre);
@@ -625,6 +631,10 @@ impl<'a> VisitMut for Norm<'a> {
                         self.letsplit_expr(&mut init.expr, &mut pre);
                         out.extend(pre);
                     }
+                } else if let Stmt::Expr(e @ Expr::MethodCall(_), _) = &mut st {
+                    let mut pre: Vec<Stmt> = vec![];
+                    self.letsplit_expr(e, &mut pre);
+                    out.extend(pre);
                 } else if let Stmt::Expr(Expr::Assign(a), _) = &mut st {
                     if matches!(&*a.left, Expr::Path(_) | Expr::Field(_)) {
                         let mut pre: Vec<Stmt> = vec![];
@@ -782,8 +792,8 @@ impl<'a> VisitMut for Norm<'a> {
                 after.extend(self.anchor(&format!("after.{}#{}", nm, k)));
             }
             match &s {
-                Stmt::Expr(Expr::Continue(_), _) => { let k = { let k = self.call_no.entry("continue!".into()).or_default(); *k += 1; *k }; before.extend(self.anchor(&format!("continue#{}", k))); }
-                Stmt::Expr(Expr::Break(_), _) => { let k = { let k = self.call_no.entry("break!".into()).or_default(); *k += 1; *k }; before.extend(self.anchor(&format!("break#{}", k))); }
+                Stmt::Expr(Expr::Continue(_), _) => { self.sigs.entry("continue".into()).or_default().push("continue".into()); let k = { let k = self.call_no.entry("continue!".into()).or_default(); *k += 1; *k }; before.extend(self.anchor(&format!("continue#{}", k))); }
+                Stmt::Expr(Expr::Break(_), _) => { self.sigs.entry("break".into()).or_default().push("break".into()); let k = { let k = self.call_no.entry("break!".into()).or_default(); *k += 1; *k }; before.extend(self.anchor(&format!("break#{}", k))); }
                 _ => {}
             }
             if loop_stmt {
@@ -1106,7 +1116,8 @@ impl<'a> VisitMut for Norm<'a> {
                             Pat::Wild(_) => { chain = Some(parse_quote!({ #body })); }
                             p => {
                                 if let Some((len, binds)) = Self::slice_pat_bindings(p) {
-                                    let lets: Vec<Stmt> = binds.iter().map(|(k, p)| { let k = LitInt::new(&k.to_string(), Span::call_site()); parse_quote!(let #p = &#base[#k];) }).collect();
+                                    let is_mut = matches!(&base, Expr::Path(bp) if bp.path.get_ident().map(|i| self.mut_slices.contains(&i.to_string())).unwrap_or(false));
+                                    let lets: Vec<Stmt> = binds.iter().map(|(k, p)| { let k = LitInt::new(&k.to_string(), Span::call_site()); if is_mut { parse_quote!(let #p = &mut #base[#k];) } else { parse_quote!(let #p = &#base[#k];) } }).collect();
                                     let len = LitInt::new(&len.to_string(), Span::call_site());
                                     chain = Some(match chain { Some(c) => parse_quote!(if #base.len() == #len { #(#lets)* #body } else #c), None => parse_quote!(if #base.len() == #len { #(#lets)* #body }) });
                                 } else { ok = false; break; }
@@ -1183,7 +1194,7 @@ impl<'a> VisitMut for Norm<'a> {
                 if !pre.is_empty() || can.is_some() {
                     let rn = Ident::new(&self.spec.ret_name, Span::call_site());
                     let mut blk: Block = parse_quote!({});
-                    if let Some(x) = &r.expr { blk.stmts.push(parse_quote!(let #rn = #x;)); }
+                    if let Some(x) = &r.expr { match &self.ret_ty { Some(t) => blk.stmts.push(parse_quote!(let #rn: #t = #x;)), None => blk.stmts.push(parse_quote!(let #rn = #x;)) } }
                     blk.stmts.extend(pre);
                     blk.stmts.extend(can);
                     if r.expr.is_some() { blk.stmts.push(parse_quote!(return #rn;)); } else { blk.stmts.push(parse_quote!(return;)); }
@@ -1241,7 +1252,7 @@ impl<'a> VisitMut for Norm<'a> {
                         }
                     }
                 }
-                let mapped = self.unit.method_map.iter().find(|(k, _)| k == &name).map(|(_, v)| v.clone());
+                let mapped = self.spec.method_map.iter().chain(self.unit.method_map.iter()).find(|(k, _)| k == &name).map(|(_, v)| v.clone());
                 if let Some(to) = mapped {
                     mc.method = Ident::new(&to, mc.method.span());
                     mc.turbofish = None;
@@ -1404,7 +1415,9 @@ impl<'a> Norm<'a> {
     /// operand of `?`/`.await`) and bind the calls named by @bindspine to fresh `__tK` temporaries, innermost first.
     fn split_spine(&mut self, e: &mut Expr, out: &mut Vec<Stmt>) {
         match e {
-            Expr::MethodCall(mc) => self.split_slot(&mut mc.receiver, out),
+            Expr::MethodCall(mc) => {
+                if matches!(&*mc.receiver, Expr::Path(_)) { if let Some(first) = mc.args.first_mut() { self.split_slot(first, out); } } else { self.split_slot(&mut mc.receiver, out) }
+            }
             Expr::Call(c) => {
                 if matches!(&*c.func, Expr::Path(_)) {
                     if let Some(first) = c.args.first_mut() { self.split_slot(first, out); }
@@ -1478,7 +1491,7 @@ impl<'a> Norm<'a> {
                 if !ret.is_empty() || can.is_some() {
                     // a diverging tail (e.g. `loop {}` / if-else with returns) is bound too; harmless
                     let rn = Ident::new(&self.spec.ret_name, Span::call_site());
-                    block.stmts.push(parse_quote!(let #rn = #t;));
+                    match &self.ret_ty { Some(ty) => block.stmts.push(parse_quote!(let #rn: #ty = #t;)), None => block.stmts.push(parse_quote!(let #rn = #t;)) }
                     block.stmts.extend(ret);
                     block.stmts.extend(can);
                     block.stmts.push(Stmt::Expr(parse_quote!(#rn), None));
